@@ -36,14 +36,27 @@ RELS = ["=", "&lt;", "&#x2264;", "&#x2260;"]
 
 
 class Planter:
-    """hands out distinct decimal literals (with the locale's decimal mark) and remembers them"""
+    """hands out distinct decimal literals (with the locale's decimal mark) and remembers them; with shapes=True the
+    literals vary in shape (leading / trailing zeros after the mark, no integer part, integers)"""
 
-    def __init__(self, rng, mark="."):
-        self.rng, self.mark, self.lits = rng, mark, []
+    def __init__(self, rng, mark=".", shapes=False):
+        self.rng, self.mark, self.lits, self.shapes = rng, mark, [], shapes
 
     def lit(self):
+        r = self.rng
         while True:
-            s = "%d%s%02d" % (self.rng.randint(11, 98), self.mark, self.rng.randint(11, 98))
+            if self.mark is None:
+                s = "%d" % r.randint(1011, 9898)
+            elif not self.shapes:
+                s = "%d%s%02d" % (r.randint(11, 98), self.mark, r.randint(11, 98))
+            else:
+                k = r.randint(0, 5)
+                s = ["%d%s%02d" % (r.randint(11, 98), self.mark, r.randint(11, 98)),
+                     "%d%s0%d" % (r.randint(11, 98), self.mark, r.randint(1, 9)),
+                     "0%s0%d%d" % (self.mark, r.randint(1, 9), r.randint(1, 9)),
+                     "%s0%d%d" % (self.mark, r.randint(1, 9), r.randint(1, 9)),
+                     "%d%d0%s%d" % (r.randint(1, 9), r.randint(1, 9), self.mark, r.randint(1, 9)),
+                     "%d" % r.randint(1011, 9898)][k]
             if s not in self.lits and not any(s in o or o in s for o in self.lits):
                 self.lits.append(s)
                 return s
@@ -129,7 +142,26 @@ def gen(rng, depth=3, plant=None, kinds=None):
         return "<mfenced>%s%s</mfenced>" % (g(depth - 2), g(depth - 2))
     if k == "style":
         return "<mstyle displaystyle='true'>%s</mstyle>" % g()
+    # --- the kinds below are only drawn when asked for (MORE_KINDS): scripts on arbitrary bases, lists, juxtaposed numbers
+    if k == "subsup_any":
+        return "<msubsup>%s%s%s</msubsup>" % (g(depth - 2), g(depth - 2), g(depth - 2))
+    if k == "underover_any":
+        return "<munderover>%s%s%s</munderover>" % (g(depth - 2), g(depth - 2), g(depth - 2))
+    if k == "script_any":
+        return "<%s>%s%s</%s>" % ((t := rng.choice(["msub", "msup", "munder", "mover"])), g(depth - 2), g(depth - 2), t)
+    if k == "list":
+        o, c = rng.choice([("(", ")"), ("{", "}"), ("[", "]")])
+        items = [g(depth - 2)]
+        for _ in range(rng.randint(1, 3)):
+            items += [mo(","), g(depth - 2)]
+        return row(mo(o), row(*items), mo(c))
+    if k == "juxta":
+        return row(operand(rng, plant), mo("&#x2062;"), g(depth - 1))
     return operand(rng, plant)
+
+
+MORE_KINDS = ["sum", "prod", "frac", "pow", "sub", "sqrt", "root", "fn", "paren", "abs", "rel", "bigop", "limit", "matrix", "leaf", "leaf",
+              "neg", "subsup", "overbar", "fenced", "style", "subsup_any", "underover_any", "script_any", "list", "list", "juxta"]
 
 
 def math(body, attrs=""):
